@@ -165,6 +165,38 @@ CRTF_BAD_LINES = [
 
 MODES = ['center', 'exact', 'subpixels']
 
+# FITS region tables as other tools write them (hand-written, not produced by
+# the library's own serialiser): min/max rectangles, excluded shapes, points
+# without a SHAPE column, no units, a plain Table, unsupported and invalid
+# shapes part-way, a radius vector that is too short
+_T1 = [['SHAPE', ['rectangle', 'rotrectangle', '!circle', 'point'], None],
+       ['X', [[1.0, 5.0], [2.0, 8.0], [4.0, 0.0], [7.0, 0.0]], 'pix'],
+       ['Y', [[2.0, 6.0], [1.0, 3.0], [5.0, 0.0], [8.0, 0.0]], 'pix'],
+       ['R', [[0.0, 0.0], [0.0, 0.0], [3.0, 0.0], [0.0, 0.0]], 'pix'],
+       ['ROTANG', [0.0, 30.0, 0.0, 0.0], 'deg'],
+       ['COMPONENT', [1, 2, 3, 4], None]]
+FITS_TABLES = [
+    {'t': 'fitstable', 'cols': _T1},
+    {'t': 'fitstable', 'cols': _T1, 'plain': True},
+    {'t': 'fitstable', 'cols': [[n, v, None] for n, v, _ in _T1[:5]]},
+    {'t': 'fitstable', 'cols': [['X', [1.0, 2.0, 9.5], 'pix'],
+                                ['Y', [3.0, 4.0, 0.5], 'pix']]},
+    {'t': 'fitstable', 'cols': [
+        ['SHAPE', ['circle', 'pie', 'bogus', 'circle'], None],
+        ['X', [1.0, 2.0, 3.0, 4.0], 'pix'], ['Y', [1.0, 2.0, 3.0, 4.0], 'pix'],
+        ['R', [2.0, 2.0, 2.0, 2.0], 'pix']]},
+    {'t': 'fitstable', 'cols': [
+        ['SHAPE', ['circle', 'ellipse'], None],
+        ['X', [1.0, 2.0], 'pix'], ['Y', [1.0, 2.0], 'pix'],
+        ['R', [[2.0], [3.0]], 'pix'], ['ROTANG', [0.0, 10.0], 'deg']]},
+    {'t': 'fitstable', 'cols': [
+        ['SHAPE', ['box', 'rotbox', 'annulus', 'elliptannulus'], None],
+        ['X', [5.0, 6.0, 7.0, 8.0], 'pix'], ['Y', [5.0, 6.0, 7.0, 8.0], 'pix'],
+        ['R', [[4.0, 2.0, 0.0, 0.0], [4.0, 2.0, 0.0, 0.0],
+               [1.0, 3.0, 0.0, 0.0], [1.0, 2.0, 3.0, 4.0]], 'pix'],
+        ['ROTANG', [0.0, 45.0, 0.0, 20.0], 'deg']]},
+]
+
 
 def bad_line(rng, fmt):
     """A malformed line: from the fixed catalogue, or a valid line whose k-th
@@ -326,6 +358,8 @@ def gen_pool(rng):
         '', '\n\n', '# Region file format: DS9 version 4.1\n'])})
     add('text:crtf', {'t': 'lit', 'v': '#CRTFv0\n'})
     add('table', {'t': 'fitstable', 'cols': []})
+    for t in rng.sample(FITS_TABLES, 3):
+        add('table', t)
     for f in rng.sample(DS9_FILES, 2):
         add('text:ds9', {'t': 'datafile', 'path': 'io/ds9/tests/data/' + f})
     add('text:ds9', {'t': 'lit', 'v': _ds9_text(rng)})
@@ -442,6 +476,7 @@ class Arg:
         self.rng = Stream(op['r'], 'op')
         self.forced = list(forced) if forced is not None else None
         self.r = op['r']
+        self.repeat = bool(op.get('repeat'))
         self.resolved = []
         self.fault = op.get('fault') or {}
         self.fired = False
@@ -1008,7 +1043,19 @@ class Exec:
             # a fresh string object per call (an id()-keyed cache must not
             # be able to hide behind the pool keeping its texts alive)
             data = data[:1] + data[1:]
-        if a.fault.get('kind') == 'parse_error' and fmt != 'fits':
+        if a.fault.get('kind') == 'parse_error' and fmt == 'fits':
+            # a row part-way through the caller's table is bad (a copy of
+            # the pool's table, tracked as an argument of this call)
+            try:
+                data = data.copy()
+                k = a.rng.randrange(max(1, len(data)))
+                if 'SHAPE' in data.colnames and len(data):
+                    data['SHAPE'][k] = a.rng.pick(['bogus', 'pie', '!'])
+                    a.fired = True
+            except Exception:
+                pass
+            a.track('table', data)
+        elif a.fault.get('kind') == 'parse_error' and fmt != 'fits':
             lines = data.split('\n')
             bad = bad_line(a.rng, fmt)
             c = a.rng.randrange(3)
@@ -1047,7 +1094,7 @@ class Exec:
         kw = self._ser_kwargs(a, fmt, target)
         ext = a.rng.pick({'ds9': ['.reg', '.ds9'], 'crtf': ['.crtf'],
                           'fits': ['.fits', '.fit']}[fmt])
-        name = f'w{a.r % 1000003}{ext}'
+        name = f'w{a.r % 1000003}{"b" if a.repeat else ""}{ext}'
         explicit = a.rng.chance(0.5)
         over = a.rng.pick([None, True, False])
         shared = a.rng.chance(0.3)
@@ -1128,7 +1175,8 @@ class Exec:
             a.fired = True
             c = a.rng.randrange(3)
             src = path
-            path = os.path.join(self.disk, f'r{a.r % 1000003}_{f}')
+            path = os.path.join(
+                self.disk, f'r{a.r % 1000003}{"b" if a.repeat else ""}_{f}')
             if c == 0:
                 pass                                   # missing file
             else:
@@ -1536,6 +1584,30 @@ def battery_plan():
                            'RectanglePixelRegion',
                            {'center': 3, 'width': 2, 'height': 4, 'angle': 1})]})
     op('parse_fixed', [t2], fmt='fits')
+    # lists of several regions (the DS9 serialiser hoists what they share
+    # into a ``global`` line), through serialize and through the file layer
+    shared_meta = [['text', 'lbl']]
+    shared_vis = [['color', 'red'], ['linewidth', 2]]
+    for sky in (False, True):
+        classes = ['CircleSkyRegion', 'EllipseSkyRegion',
+                   'PolygonSkyRegion'] \
+            if sky else ['CirclePixelRegion', 'EllipsePixelRegion',
+                         'PolygonPixelRegion']
+        lst = add('regions', {'t': 'regions', 'v': [
+            gen.region_from_tokens(c, gen.draw_tokens(rng, c, small=True),
+                                   shared_meta, shared_vis)
+            for c in classes]})
+        for fmt in ('ds9', 'crtf') + (() if sky else ('fits',)):
+            kw = {'coordsys': 'image'} if (fmt == 'crtf' and not sky) else {}
+            op('serialize_fixed', [lst], fmt=fmt, kw=kw)
+            op('io_fixed', [lst], fmt=fmt, kw=kw)
+    c1 = add('pixreg', gen.region_from_tokens(
+        'EllipsePixelRegion', gen.draw_tokens(rng, 'EllipsePixelRegion',
+                                              small=True)))
+    c2 = add('pixreg', gen.region_from_tokens(
+        'RectanglePixelRegion', gen.draw_tokens(rng, 'RectanglePixelRegion',
+                                                small=True)))
+    op('misc_fixed', [c1, c2, p0, img])
     b = add('bbox', {'t': 'bbox', 'v': [1, 10, 2, 8]})
     op('bbox_fixed', [b])
     op('defaults_fixed', [p0])
@@ -1588,6 +1660,34 @@ def _battery_ops(ex):
                 return [r.as_artist(), r.as_artist(origin=(1, 2))]
             except Exception as exc:
                 return repr(exc)[:80]
+        return fn
+
+    def io_fixed(a, op):
+        r = a.slot(('x',))
+        ext = {'ds9': '.reg', 'crtf': '.crtf', 'fits': '.fits'}[op['fmt']]
+        path = os.path.join(ex.disk, 'battery' + ext)
+
+        def fn():
+            r.write(path, overwrite=True, **op['kw'])
+            with open(path, 'rb') as fh:
+                data = fh.read()
+            return [hashlib.sha1(data).hexdigest(), Regions.read(path)]
+        return fn
+
+    def misc_fixed(a, op):
+        import astropy.units as u
+        r1 = a.slot(('x',))
+        r2 = a.slot(('x',))
+        p = a.slot(('x',))
+        img = a.slot(('x',))
+
+        def fn():
+            m = r1.to_mask(mode='subpixels', subpixels=3)
+            return [r1.rotate(p, 30 * u.deg), r2.rotate(p, -725 * u.deg),
+                    r1.copy(), r1 & r2, (r1 | r2).contains(p), r1 == r2,
+                    r1 == r1.copy(), m.multiply(img), m.get_values(img),
+                    p + p, p.rotate(p, 10 * u.deg), r2.corners,
+                    r2.to_polygon(), r1.area, repr(r1), str(r2)]
         return fn
 
     def bbox_fixed(a, op):
@@ -1721,7 +1821,6 @@ def gen_plan(seed, index, tier='quick'):
                     op['fault']['k'] = max(1, int(10 ** f_rng.uniform(0, 3.6)))
         ops.append(op)
         if ops_rng.chance(0.2) and len(ops) < n and \
-                k not in ('write_read', 'read_data', 'shared_io') and \
                 op.get('fault', {}).get('kind') != 'line_abort':
             op['store'] = False
             rep = dict(op)
